@@ -18,6 +18,10 @@ pub struct Hs {
     /// then announces them to every connection task, handshaken or not. The client owns nothing at
     /// the start in this variant.
     pub downloader: bool,
+    /// Ten other (manager-only) peers hold all regular upload slots and every connection has
+    /// reported its rates, so a choke rotation (event R) is carried out and has to deal with the
+    /// connection under test as "one of the rest".
+    pub crowded: bool,
 }
 
 #[derive(Default)]
@@ -47,8 +51,11 @@ impl Hs {
         if self.outgoing {
             v.push("HS:otherid".into());
         }
-        if self.downloader {
+        if self.downloader || self.crowded {
             v.extend(["KeepAlive", "Interested", "Have"].iter().map(|s| s.to_string()));
+            if self.crowded {
+                v.push("R".to_string());
+            }
             return v;
         }
         v.extend(["HS:pstr", "HS:pstrlen", "HS:trunc"].iter().map(|s| s.to_string()));
@@ -95,7 +102,7 @@ fn event_bytes(w: &World, sym: &str) -> Vec<u8> {
 impl Scenario for Hs {
     type Mon = Mon;
     fn name(&self) -> String {
-        format!("handshake-{}-bits{:?}{}", if self.outgoing { "outgoing" } else { "incoming" }, self.bits, if self.downloader { "-while-downloading" } else { "" })
+        format!("handshake-{}-bits{:?}{}", if self.outgoing { "outgoing" } else { "incoming" }, self.bits, if self.downloader { "-while-downloading" } else if self.crowded { "-crowded" } else { "" })
     }
     fn cfg(&self) -> WorldCfg {
         if self.downloader {
@@ -104,6 +111,16 @@ impl Scenario for Hs {
         WorldCfg { torrent: torrent(), have: vec![0, 1], peers: vec![peer_cfg(0, self.outgoing)], gated: false, stale: vec![] }
     }
     fn setup(&self, w: &mut World, _mon: &mut Mon) {
+        if self.crowded {
+            for k in 0..10 {
+                w.add_mgr_peer();
+                w.step(&Ev::MgrStats(k, Some(100 + k as u32), Some(100 + k as u32)), &[]);
+                w.step(&Ev::MgrBitfield(k, vec![false, false]), &[]);
+                w.step(&Ev::MgrInterested(k), &[]);
+            }
+            // the connection under test reports its rates on its own (two statistics ticks)
+            w.step(&Ev::AdvanceTo(20_500), &[]);
+        }
         if self.downloader {
             let t = w.t.clone();
             let id = w.peers[1].cfg.id;
@@ -118,6 +135,9 @@ impl Scenario for Hs {
         v
     }
     fn concretize(&self, w: &World, mon: &Mon, sym: &str) -> Vec<Ev> {
+        if sym == "R" {
+            return vec![Ev::Rotate];
+        }
         if sym == "Dp" {
             let req = w.peers[1].msgs.iter().filter(|m| matches!(m, Msg::Request(..))).nth(mon.d_answered).cloned();
             if let Some(Msg::Request(i, b, l)) = req {
@@ -144,7 +164,7 @@ impl Scenario for Hs {
         if last == Some("Dp") {
             mon.d_answered += 1;
         }
-        if let Some(sym) = last.filter(|s| *s != "Dp") {
+        if let Some(sym) = last.filter(|s| *s != "Dp" && *s != "R") {
             mon.fed.extend(event_bytes(w, sym));
             let (decoded, _, _) = refwire::decode_stream(&mon.fed);
             let n_before = decoded.len();
@@ -209,14 +229,16 @@ impl Scenario for Hs {
 
 pub fn scenarios(thorough: bool) -> Vec<Hs> {
     let mut v = vec![
-        Hs { outgoing: true, bits: vec![0, 159], downloader: false },
-        Hs { outgoing: false, bits: vec![0, 159], downloader: false },
-        Hs { outgoing: false, bits: vec![0], downloader: true },
-        Hs { outgoing: true, bits: vec![0], downloader: true },
+        Hs { outgoing: true, bits: vec![0, 159], downloader: false, crowded: false },
+        Hs { outgoing: false, bits: vec![0, 159], downloader: false, crowded: false },
+        Hs { outgoing: false, bits: vec![0], downloader: true, crowded: false },
+        Hs { outgoing: true, bits: vec![0], downloader: true, crowded: false },
+        Hs { outgoing: false, bits: vec![0], downloader: false, crowded: true },
+        Hs { outgoing: true, bits: vec![0], downloader: false, crowded: true },
     ];
     if thorough {
-        v.push(Hs { outgoing: true, bits: vec![7, 80], downloader: false });
-        v.push(Hs { outgoing: false, bits: vec![31, 128], downloader: false });
+        v.push(Hs { outgoing: true, bits: vec![7, 80], downloader: false, crowded: false });
+        v.push(Hs { outgoing: false, bits: vec![31, 128], downloader: false, crowded: false });
     }
     v
 }
@@ -241,7 +263,7 @@ pub fn run(ctx: &Ctx) -> Outcome {
                 core::private_cwd("bfs", &format!("w{}", w))
             },
             |dir, _, b| {
-                let s = Hs { outgoing, bits: vec![*b], downloader: false };
+                let s = Hs { outgoing, bits: vec![*b], downloader: false, crowded: false };
                 let r = explore::replay(&s, dir, &[(format!("HS:hash{}", b), vec![])], false);
                 r.violation
             },
@@ -249,7 +271,7 @@ pub fn run(ctx: &Ctx) -> Outcome {
         for (b, v) in bits.iter().zip(res) {
             bit_runs += 1;
             if let Some((class, why)) = v {
-                let s = Hs { outgoing, bits: vec![*b], downloader: false };
+                let s = Hs { outgoing, bits: vec![*b], downloader: false, crowded: false };
                 ctx.violation(class, format!("[{}] {}", s.name(), why), json!({"scenario": s.name(), "history": [format!("HS:hash{}", b)]}));
             }
         }
@@ -300,7 +322,7 @@ pub fn run(ctx: &Ctx) -> Outcome {
     explore::stats_outcome(&total, &mut o);
     o.set("scenarios", Value::Array(per));
     o.set("single_bit_hash_corruptions", json!(bit_runs));
-    o.set("rule", json!(format!("BFS to depth {} over the alphabet [HS:good, HS:hash0, HS:hash159, HS:otherid (outgoing only), HS:pstr, HS:pstrlen, HS:trunc, {}] on an outgoing and an incoming connection, manager owning both pieces; -while-downloading variants: the client owns nothing, a second connection D (honest seeder) completes pieces at any point (event Dp, so the manager announces them to every connection task) while the connection under test sends good / corrupted handshakes, KeepAlive, Interested, Have; a state is the canonical snapshot of manager + connection task + files + monitor; histories end when the connection task ended. Plus all 160 single-bit corruptions of the info-hash as first message, both directions. Plus three full-session scenarios borrowed from C02 (identity-*): a re-announce lists a connected address followed by a new one, whose peer presents its own announced id (must stay connected) or the id of the connected peer (must be dropped); a host re-listed under a new id. Plus four exchanges with the real session's accept path over loopback TCP (real clock): a dial-in peer stays silent / sends a handshake for another torrent / a good handshake / a Bitfield before any handshake.", depth, PLAIN.join(", "))));
+    o.set("rule", json!(format!("BFS to depth {} over the alphabet [HS:good, HS:hash0, HS:hash159, HS:otherid (outgoing only), HS:pstr, HS:pstrlen, HS:trunc, {}] on an outgoing and an incoming connection, manager owning both pieces; -crowded variants: ten manager-only peers hold all regular upload slots, every connection has reported rates, and R (one real choke rotation) may happen at any point of the handshake phase; -while-downloading variants: the client owns nothing, a second connection D (honest seeder) completes pieces at any point (event Dp, so the manager announces them to every connection task) while the connection under test sends good / corrupted handshakes, KeepAlive, Interested, Have; a state is the canonical snapshot of manager + connection task + files + monitor; histories end when the connection task ended. Plus all 160 single-bit corruptions of the info-hash as first message, both directions. Plus three full-session scenarios borrowed from C02 (identity-*): a re-announce lists a connected address followed by a new one, whose peer presents its own announced id (must stay connected) or the id of the connected peer (must be dropped); a host re-listed under a new id. Plus four exchanges with the real session's accept path over loopback TCP (real clock): a dial-in peer stays silent / sends a handshake for another torrent / a good handshake / a Bitfield before any handshake.", depth, PLAIN.join(", "))));
     o.assume("a truncated handshake followed by other bytes is undecodable input (C06's subject); after it nothing is demanded here except (2) and (4)");
     o
 }
@@ -309,7 +331,7 @@ pub fn parse_name(name: &str) -> Hs {
     let outgoing = name.contains("outgoing");
     let inner = name.split("bits[").nth(1).unwrap().split(']').next().unwrap();
     let bits: Vec<usize> = inner.split(", ").filter(|s| !s.is_empty()).map(|s| s.parse().unwrap()).collect();
-    Hs { outgoing, bits, downloader: name.contains("while-downloading") }
+    Hs { outgoing, bits, downloader: name.contains("while-downloading"), crowded: name.contains("crowded") }
 }
 
 pub fn replay(_ctx: &Ctx, r: &Value) -> i32 {
